@@ -87,10 +87,12 @@ static std::string run_case(const Case &x, bool *nt = nullptr, int *v0out = null
   return "";
 }
 
-// callback-selected (alg,key) vs setkey: same admission, same verdict
-struct SelCtx { const jwk_item_t *key; jwt_alg_t alg; };
-static int sel_cb(jwt_t *, jwt_config_t *c) { SelCtx *s = (SelCtx *)c->ctx; c->key = s->key; c->alg = s->alg; return 0; }
-static std::string run_select(int prov, int key, int algi, int tokkind, std::string *desc) {
+// callback-selected (alg,key) vs setkey: same admission, same verdict.
+// mode 0: no setkey, the callback sets key and alg; mode 1: setkey(none, key) first (key with alg attribute), the callback
+// changes only the alg; mode 2: setkey(none, other key) first, the callback replaces only the key (alg untouched)
+struct SelCtx { const jwk_item_t *key; jwt_alg_t alg; int mode; };
+static int sel_cb(jwt_t *, jwt_config_t *c) { SelCtx *s = (SelCtx *)c->ctx; if (s->mode != 1) c->key = s->key; if (s->mode != 2) c->alg = s->alg; return 0; }
+static std::string run_select(int prov, int key, int algi, int tokkind, std::string *desc, int mode = 0) {
   set_provider(prov); set_now(NOW);
   const jwk_item_t *item = key < 0 ? nullptr : keytab()[key].lk->item; jwt_alg_t alg = ALGCH[algi % NALGCH];
   // token: signed by that key with alg (if possible), or by HS256/oct64, or none
@@ -99,11 +101,18 @@ static std::string run_select(int prov, int key, int algi, int tokkind, std::str
   else if (tokkind == 1) tok = ref_token(*keytab()[0].k, JWT_ALG_HS256, "{\"alg\":\"HS256\"}", "{}");
   else tok = ref_token(*keytab()[0].k, JWT_ALG_NONE, "{\"alg\":\"none\"}", "{}");
   if (tok.find("..") != std::string::npos && tokkind == 0) tok = ref_token(*keytab()[0].k, JWT_ALG_NONE, "{\"alg\":\"none\"}", "{}");
-  *desc = "{\"kind\":\"select\",\"prov\":" + std::to_string(prov) + ",\"key\":" + std::to_string(key) + ",\"algi\":" + std::to_string(algi) + ",\"tokkind\":" + std::to_string(tokkind) + ",\"token\":" + jstr(tok) + "}";
-  jwt_checker_t *a = jwt_checker_new(); int sr = jwt_checker_setkey(a, alg, item); int va = sr ? 1 : jwt_checker_verify(a, tok.c_str()); jwt_checker_free(a);
-  jwt_checker_t *b = jwt_checker_new(); SelCtx sc{item, alg}; jwt_checker_setcb(b, sel_cb, &sc); int vb = jwt_checker_verify(b, tok.c_str()); jwt_checker_free(b);
-  if (sr && vb == 0) return "callback-selected-pair-refused-by-setkey-but-verifies";
-  if (!sr && (va == 0) != (vb == 0)) return "callback-selected-pair-verdict-differs-from-setkey";
+  *desc = "{\"kind\":\"select\",\"prov\":" + std::to_string(prov) + ",\"key\":" + std::to_string(key) + ",\"algi\":" + std::to_string(algi) + ",\"tokkind\":" + std::to_string(tokkind) + ",\"mode\":" + std::to_string(mode) + ",\"token\":" + jstr(tok) + "}";
+  // reference: the final (alg, key) pair handed to setkey on a fresh checker
+  jwt_alg_t final_alg = alg; const jwk_item_t *final_key = item;
+  const jwk_item_t *pre = nullptr;
+  if (mode == 1) { if (!item) return ""; pre = item; }                                  // checker already holds the key; the callback sets alg
+  if (mode == 2) { pre = keytab()[1].lk->item; final_alg = JWT_ALG_NONE; }             // checker holds oct64/HS256 with alg none; the callback swaps the key
+  jwt_checker_t *a = jwt_checker_new(); int sr = jwt_checker_setkey(a, final_alg, final_key); int va = sr ? 1 : jwt_checker_verify(a, tok.c_str()); jwt_checker_free(a);
+  jwt_checker_t *b = jwt_checker_new();
+  if (pre && jwt_checker_setkey(b, JWT_ALG_NONE, pre)) { jwt_checker_free(b); return ""; }   // the preparatory setkey itself is refused (key without alg attribute): cell does not exist
+  SelCtx sc{item, alg, mode}; jwt_checker_setcb(b, sel_cb, &sc); int vb = jwt_checker_verify(b, tok.c_str()); jwt_checker_free(b);
+  if (sr && vb == 0) return std::string("callback-selected-pair-refused-by-setkey-but-verifies:mode") + std::to_string(mode);
+  if (!sr && (va == 0) != (vb == 0)) return std::string("callback-selected-pair-verdict-differs-from-setkey:mode") + std::to_string(mode);
   return "";
 }
 
@@ -115,7 +124,7 @@ int main(int argc, char **argv) {
   if (!a.replay.empty()) {
     J j = J::parse(read_file(a.replay)); if (!j) return 2;
     auto gi = [&](json_t *arr, int i) { return (long)json_integer_value(json_array_get(arr, i)); };
-    if (json_object_get(j.p, "kind")) { std::string d; std::string r = run_select((int)json_integer_value(json_object_get(j.p, "prov")), (int)json_integer_value(json_object_get(j.p, "key")), (int)json_integer_value(json_object_get(j.p, "algi")), (int)json_integer_value(json_object_get(j.p, "tokkind")), &d); return r.empty() ? 0 : 3; }
+    if (json_object_get(j.p, "kind")) { std::string d; std::string r = run_select((int)json_integer_value(json_object_get(j.p, "prov")), (int)json_integer_value(json_object_get(j.p, "key")), (int)json_integer_value(json_object_get(j.p, "algi")), (int)json_integer_value(json_object_get(j.p, "tokkind")), &d, (int)json_integer_value(json_object_get(j.p, "mode"))); return r.empty() ? 0 : 3; }
     Case x; x.prov = (int)json_integer_value(json_object_get(j.p, "prov")); json_t *c = json_object_get(j.p, "cfg"), *t = json_object_get(j.p, "tok");
     x.c = {(int)gi(c, 0), gi(c, 1) != 0, gi(c, 2) != 0, gi(c, 3) != 0, gi(c, 4), gi(c, 5)}; x.t = {(int)gi(t, 0), (int)gi(t, 1), (int)gi(t, 2), (int)gi(t, 3), (int)gi(t, 4), gi(t, 5) != 0};
     x.p.ret = (int)json_integer_value(json_object_get(j.p, "cb_ret")); size_t i; json_t *e; json_array_foreach(json_object_get(j.p, "ops"), i, e) x.p.ops.push_back({(int)gi(e, 0), (int)gi(e, 1), (int)gi(e, 2)});
@@ -124,9 +133,9 @@ int main(int argc, char **argv) {
   }
   // (3) exhaustive small grid: callback-selected (alg,key) vs setkey
   { int idx = 0;
-    for (int prov = 0; prov < 2; prov++) for (int key = -1; key < (int)keytab().size(); key++) for (int algi = 0; algi < NALGCH; algi++) for (int tk = 0; tk < 3; tk++) {
+    for (int prov = 0; prov < 2; prov++) for (int key = -1; key < (int)keytab().size(); key++) for (int algi = 0; algi < NALGCH; algi++) for (int tk = 0; tk < 3; tk++) for (int mode = 0; mode < 3; mode++) {
       if ((idx++ % a.nworkers) != a.worker) continue;
-      std::string d, r = run_select(prov, key, algi, tk, &d); st.evaluations++; st.cls("select-cells"); st.nontrivial_distinct();
+      std::string d, r = run_select(prov, key, algi, tk, &d, mode); st.evaluations++; st.cls("select-cells"); st.nontrivial_distinct();
       if (!r.empty()) st.violation("C19:" + r, "a key/alg selected by the callback is not treated like the same pair given to setkey", d);
     } }
   uint64_t n = a.thorough() ? 40000 : 2500;
